@@ -4,6 +4,6 @@ CONSTANTS
   SepMode = "all"
   Mode = "producer"
   MaxMut = 3
-  Rounds = 6
+  Rounds = 12
 INVARIANTS Total LegalIsLegal SitesOk AEmitInv
 CHECK_DEADLOCK FALSE
